@@ -95,6 +95,8 @@ def run(facts, rep, tier):
     spell(F, rep)
     registry(F, rep)
     methodrecv(F, rep)
+    digitclass(F, rep)
+    parsedname(F, rep)
 
 
 VIEW_CALLS = ("Deref::deref", "::as_str", "::as_ref", "::borrow", "Clone::clone", "ToString::to_string",
@@ -124,6 +126,13 @@ def escaped_as_key(F, rep):
         f = F.fns[p]
         roots = [t["d"]["l"] for bi, t in f.calls()
                  if (callee_name(t) or "").endswith("::escape_keyword") and not t["d"]["p"]]
+        # the text of an identifier that was built from an escaped name is the escaped spelling too
+        for bi, t in f.calls():
+            g0 = callee_generic(t) or ""
+            if g0.endswith("ToString::to_string") and t["args"] and not t["d"]["p"]:
+                pl0 = op_place(t["args"][0])
+                if pl0 is not None and "proc_macro2::Ident" in f.local_ty(pl0["l"]) and roots:
+                    roots.append(t["d"]["l"])
         if not roots:
             continue
         tainted = set()
@@ -132,13 +141,23 @@ def escaped_as_key(F, rep):
         changed = True
         while changed:
             changed = False
+            for b in f.blocks:
+                for st in b["st"]:
+                    if st["s"] == "assign" and not st["d"]["p"] and st["d"]["l"] not in tainted and \
+                            st["rv"]["r"] == "agg" and st["rv"].get("ak") == "closure" and \
+                            any(op_place(o) is not None and op_place(o)["l"] in tainted for o in st["rv"]["ops"]):
+                        tainted |= derived_locals(f, st["d"]["l"])
+                        changed = True
             for bi, t in f.calls():
                 if t["d"]["p"] or t["d"]["l"] in tainted:
                     continue
                 g = callee_generic(t) or callee_name(t) or ""
-                if not any(v in g for v in VIEW_CALLS):
+                # a local closure that captured the escaped spelling hands it on in what it returns
+                is_closure_call = any(g.endswith(x) for x in ("Fn::call", "FnMut::call_mut", "FnOnce::call_once"))
+                if not any(v in g for v in VIEW_CALLS) and not is_closure_call:
                     continue
-                if any(op_place(o) is not None and op_place(o)["l"] in tainted for o in t["args"]):
+                if any(op_place(o) is not None and op_place(o)["l"] in tainted for o in
+                       (t["args"][:1] if is_closure_call else t["args"])):
                     tainted |= derived_locals(f, t["d"]["l"])
                     changed = True
         per = 0
@@ -479,3 +498,89 @@ def primary_dispatch_block(F, f):
         if len(sw["explicit"]) >= 12 and (best is None or len(sw["explicit"]) > len(best["explicit"])):
             best = sw
     return best["block"] if best else None
+
+
+def digitclass(F, rep):
+    """DIGITCLASS - a field name is a tuple index exactly when ALL its characters are digits (`p.0`); a test that only
+    asks whether SOME character is a digit also catches `x1`, `ipv4`, ... and turns a named field into `obj.0`."""
+    n = 0
+    for p in sorted(F.fns):
+        if not p.startswith("incan::backend"):
+            continue
+        f = F.fns[p]
+        for bi, t in f.calls():
+            g = callee_generic(t) or ""
+            last = g.split("::")[-1]
+            if last not in ("any", "all") or "Iterator" not in g:
+                continue
+            inst_ty = t["f"].get("self", "") + t["f"].get("inst", "")
+            if "Chars" not in inst_ty:
+                continue
+            # the predicate: a closure (or function item) that asks for digits
+            digit = False
+            for o in t["args"][1:]:
+                pl = op_place(o)
+                c = o.get("c", "") if isinstance(o, dict) else ""
+                cands = []
+                if pl is not None:
+                    d = f.single_def(pl["l"])
+                    if d and d[2] == "assign" and d[3]["r"] == "agg" and d[3].get("def") in F.fns:
+                        cands.append(F.fns[d[3]["def"]])
+                if any(k in c for k in ("is_ascii_digit", "is_numeric", "is_digit")):
+                    digit = True
+                for cf in cands:
+                    if any((callee_name(t2) or "").split("::")[-1] in ("is_ascii_digit", "is_numeric", "is_digit")
+                           for _, t2 in cf.calls()):
+                        digit = True
+            if not digit:
+                continue
+            n += 1
+            rep.functions.add(p)
+            ok = last == "all"
+            inst = "%s|%s" % (fn_short(p), last)
+            rep.oblige("DIGITCLASS", inst, ok)
+            if not ok:
+                rep.add(Finding("DIGITCLASS", "DIGITCLASS|%s" % inst,
+                                "%s treats a name as a tuple index when ANY of its characters is a digit: a field "
+                                "called `x1` is emitted as `.0`" % fn_short(p), file=f.file, line=t.get("ln"), fn=p))
+    rep.floor("DIGITCLASS", "digit classifications of names in the backend", n, 2)
+
+
+PARSERS = ("syn::parse_str", "proc_macro2::TokenStream as core::str::traits::FromStr>::from_str")
+
+
+def parsedname(F, rep):
+    """PARSEDNAME - Rust text parsed into tokens (`syn::parse_str`, `str::parse::<TokenStream>`) is an identifier
+    construction site like `format_ident!`: a user-chosen name inside it has passed through escape_keyword."""
+    n = 0
+    for p in sorted(F.fns):
+        if not p.startswith("incan::backend"):
+            continue
+        f = F.fns[p]
+        per = 0
+        for bi, t in f.calls():
+            cn = (callee_name(t) or "") + "|" + (callee_generic(t) or "")
+            inst_ty = t["f"].get("inst", "") + t["f"].get("self", "")
+            is_parse = any(x in cn for x in PARSERS) or \
+                ("str>::parse" in cn and any(k in inst_ty for k in ("TokenStream", "syn::")))
+            if not is_parse or not t["args"]:
+                continue
+            n += 1
+            per += 1
+            pl = op_place(t["args"][0])
+            if pl is None:
+                continue
+            flds, consts, tmpl, names, args = slice_info(F, f, pl["l"])
+            user = bool([x for x in flds if NAME_FIELDS.search(x)]) or bool(args)
+            escaped = any(x.endswith("escape_keyword") for x in names)
+            ok = escaped or not user
+            inst = "%s#%d" % (fn_short(p), per)
+            rep.oblige("PARSEDNAME", inst, ok)
+            if not ok:
+                rep.add(Finding("PARSEDNAME", "PARSEDNAME|%s" % inst,
+                                "%s parses Rust text that contains a user-chosen name (%s) which never passed "
+                                "escape_keyword: for a name that is a Rust keyword the parse fails (or falls back to "
+                                "something else) and the generated program is different"
+                                % (fn_short(p), ", ".join(sorted(flds)[:2]) or "a function argument"),
+                                file=f.file, line=t.get("ln"), fn=p))
+    rep.oblige("PARSEDNAME", "sites: %d" % n, True, sample={"rule": "PARSEDNAME", "parse_sites_in_backend": n})
